@@ -494,7 +494,7 @@ func (f *Frame) applyContract(ct *Contract, names []string, args []Val, results 
 		cur := f.evalMeasureExprs(ct.Decr.Exprs, env)
 		f.oblige("dec:rec", lexLess(cur, vc.topFrame.entryMeasure), "recursive call decreases "+ct.Decr.Text, pos, ct.Decr.Tags, true)
 	} else if recursive && vc.contract != nil && vc.contract.Terminates {
-		f.oblige("dec:rec", "false", "recursive call without decreases clause", pos, nil, true)
+		f.oblige("dec:rec", "false", "recursive call without decreases clause", pos, vc.contract.TermTags, true)
 	}
 	old := f.cur.clone()
 	f.havocKeeping(f.cur, m, ct.Pkg)
